@@ -53,13 +53,16 @@ def check(prog, rep, tier):
                       'connectionMade / connectionLost / clientConnectionFailed, lies inside a try whose '
                       'handler catches Exception and does not re-raise; no extracted path lets an exception '
                       'escape a Twisted callback')
-    rep.rule('R10.b', 'at most one report to the application per well-framed message on every path')
+    rep.rule('R10.b', 'at most one report to the application per well-framed message on every path, and a message that was '
+                      'reported is consumed (returns True with the buffer advanced once), so the next read cannot report it again')
     rep.rule('R10.c', 'a malformed UPDATE in Established is reported once with the raw bytes, moves only the '
                       'received counter and the hold timer: no close, no NOTIFICATION, state unchanged')
     rep.rule('R10.d', 'stateless decoders: no function of yabgp/message/** writes module-level, class-level '
                       'or configuration state (registries are filled by decorators at import only)')
     rep.rule('R10.e', 'clean close: once the session is Idle (closed, restart pending) further input in the same '
                       'chunk produces no message, no second close and no state change')
+    rep.rule('R10.k', 'closed cleanly with the reconnect scheduled: connectionLost after our own close arms the idle-hold '
+                      'timer on every path where automatic start is allowed (rule shared with C02 R02.c)')
     rep.rule('R10.j', 'at most one report per message: no except clause of parse_buffer calls an application handler')
     rep.rule('R10.i', 'the Data field of every NOTIFICATION the agent builds is a byte string (a decoded integer handed over '
                       'as data makes the constructor raise inside the error handler)')
@@ -149,6 +152,23 @@ def check(prog, rep, tier):
             elif name not in seen:
                 seen[name] = 'ok'
                 rep.ok('R10.b', name, file=PROTO, line=common.row_line(r), nontrivial=bool(reps))
+            # a reported message is consumed: one left at the head of the buffer is decoded and reported again
+            # by the next dataReceived
+            hdr_err = any(e[0] == 'fsm' and e[1] == 'header_error' for e in r.events)
+            if reps and r.kind != 'raise' and not hdr_err:      # (a header error = not a well-framed message)
+                name2 = 'reported-consumed:%s@%s' % (cls, state)
+                bw = [w for w in r.st.writes if w[1] == '_receive_buffer']
+                if cval(r.val) is True and len(bw) == 1:
+                    if name2 not in seen:
+                        seen[name2] = 'ok'
+                        rep.ok('R10.b', name2, file=PROTO, line=common.row_line(r))
+                elif seen.get(name2) != 'bad':
+                    seen[name2] = 'bad'
+                    rep.bad('R10.b', name2, file=common.row_file(r), line=common.row_line(r), func='BGP.parse_buffer',
+                            found='%s handed to the application, then parse_buffer returns %r having consumed the '
+                                  'message %d time(s): it stays at the head of the receive buffer and is reported '
+                                  'again on the next read' % (reps, cval(r.val), len(bw)),
+                            expected='a reported message is removed from the buffer', key=name2, path=r.describe())
             if cls == 'UPDATE' and state == 'Established':
                 if 'on_update_error' in reps:
                     both['error'] = True
@@ -300,6 +320,10 @@ def check(prog, rep, tier):
                               % (ret, len(bw)), expected='consume the message, return True', key=name, path=r.describe())
     if not seen_g:
         rep.undecided('R10.g', 'consumed-after-raise', found='no row in which a decoder raises')
+
+    # ---------------------------------------------------------------- R10.k
+    from .c02 import closed_rearms_rule
+    closed_rearms_rule(tab, rep, 'R10.k')
 
     # ---------------------------------------------------------------- R10.e
     from .. import profile as P
